@@ -22,7 +22,8 @@ ASSUMPTIONS = [
     "c = 8; u = 2^-24 / 2^-53; kappa_2 by long double one-sided Jacobi on the entries as stored in T",
     "QRCompType::MGSRPiv pre-pivots ROWS (pivot_inplace + apply_pivot), so the judged identity is P A = Q R with row i of P A = row p(i) of A; the column-pivot "
     "reading A P = Q R of the property text is evaluated and counted (info.colpivot_reading_*), not judged",
-    "determinant<DetCompType::QR> returns the product of R's diagonal, which Gram-Schmidt makes positive: it is judged against |det A| (the sign is not recoverable)",
+    "determinant<DetCompType::QR> returns the product of R's diagonal, which Gram-Schmidt makes positive: it is judged against |det A| (the sign is not recoverable) "
+    "and, value and sign, against the product of the diagonal of the R that qr<MGSR>() returns for the same matrix (8(n+1)u relative)",
     "determinants whose partial products can leave T's normal range (max(1,smax)^n or min(1,smin)^n outside it) are not representable in T: run, counted "
     "(det.out_of_range.not_judged), not judged",
     "QRCompType::HHR is rejected by a static_assert in the library: recorded, not judged",
